@@ -105,7 +105,75 @@ func NewDynamic(seed int64, opt ...Options) *Universe {
 	for i, n := 0, g.rng.Intn(3); i < n; i++ {
 		u.Shapes = append(u.Shapes, g.genTop())
 	}
+	// top-level values of the specially treated types, by value and behind a pointer (Encode(&t))
+	switch g.rng.Intn(12) {
+	case 0, 1:
+		u.Shapes = append(u.Shapes, ptrTime())
+	case 2:
+		u.Shapes = append(u.Shapes, &Shape{Kind: Time, T: timeType})
+	case 3:
+		u.Shapes = append(u.Shapes, &Shape{Kind: BigInt, T: bigIntType})
+	}
 	return u
+}
+
+// ptrTime is the shape of *time.Time: a pointer encodes as its pointee.
+func ptrTime() *Shape {
+	return &Shape{Kind: Ptr, T: reflect.PointerTo(timeType), Elem: &Shape{Kind: Time, T: timeType}}
+}
+
+// leafT returns the Go type of a basic kind: the predeclared type or (1 in 4) a defined type over it.
+func (g *dynGen) leafT(k Kind) reflect.Type {
+	if nt, ok := namedTypes[k]; ok && g.rng.Intn(4) == 0 {
+		return nt
+	}
+	return goTypes[k]
+}
+
+// leafShape builds the node of a defined leaf type (settings of strings / byte slices come from the registry).
+func (g *dynGen) leafShape(k Kind, n int) *Shape {
+	switch k {
+	case String, Bytes:
+		s := &Shape{Kind: k, T: namedTypes[k]}
+		g.settle(s, false, false)
+		if s.LP == 0 {
+			return nil
+		}
+		return s
+	case ByteArray:
+		t := namedByteArrays[n]
+		s := &Shape{Kind: ByteArray, T: t, N: n}
+		g.seen[t] = true
+		if e, ok := g.u.reg[t]; ok {
+			s.Code = e.code
+		}
+		return s
+	}
+	return &Shape{Kind: k, T: namedTypes[k]}
+}
+
+// namedColl picks a defined collection type of the wanted kind from the pool.
+func (g *dynGen) namedColl(k Kind, keyPos bool) *Shape {
+	var cands []namedColl
+	for _, c := range namedColls {
+		if c.kind == k && (!keyPos || c.comparable) {
+			cands = append(cands, c)
+		}
+	}
+	if len(cands) == 0 {
+		return nil
+	}
+	c := cands[g.rng.Intn(len(cands))]
+	s := &Shape{Kind: c.kind, T: c.t, N: c.n}
+	if s.Elem = g.leafShape(c.elem, c.elemN); s.Elem == nil {
+		return nil
+	}
+	if c.kind == Map {
+		if s.Key = g.leafShape(c.key, 0); s.Key == nil {
+			return nil
+		}
+	}
+	return s
 }
 
 // genTop builds a top-level map / slice / byte slice / string shape whose settings come
@@ -114,23 +182,70 @@ func NewDynamic(seed int64, opt ...Options) *Universe {
 func (g *dynGen) genTop() *Shape {
 	r := g.rng
 	var s *Shape
-	switch x := r.Intn(10); {
+	x := r.Intn(12)
+	if x >= 10 && g.o.NoNonByteArrays {
+		x = r.Intn(10)
+	}
+	var arr *Shape // x >= 10: the array node the option's settings apply to
+	switch {
 	case x < 5:
 		key, _ := g.gen(g.o.MaxDepth-1, false, true)
 		elem, _ := g.gen(g.o.MaxDepth-1, false, false)
 		s = &Shape{Kind: Map, Key: key, Elem: elem, T: reflect.MapOf(key.T, elem.T)}
 	case x < 8:
 		var elem *Shape
-		for elem == nil || elem.Kind == Uint8 {
+		for elem == nil || (elem.Kind == Uint8 && elem.T == goTypes[Uint8]) {
 			elem, _ = g.gen(g.o.MaxDepth-1, false, false)
+			if r.Intn(6) == 0 {
+				elem = &Shape{Kind: Uint8, T: namedTypes[Uint8]}
+			}
 		}
 		s = &Shape{Kind: Slice, Elem: elem, T: reflect.SliceOf(elem.T)}
 	case x < 9:
-		s = &Shape{Kind: Bytes, T: goTypes[Bytes]}
+		s = &Shape{Kind: Bytes, T: g.leafT(Bytes)}
+	case x < 10:
+		s = &Shape{Kind: String, T: g.leafT(String)}
 	default:
-		s = &Shape{Kind: String, T: goTypes[String]}
+		// [N]T and *[N]T (T not byte) as top-level values: the count prefix comes from the option
+		var elem *Shape
+		switch r.Intn(3) {
+		case 0:
+			elem = &Shape{Kind: Uint8, T: namedTypes[Uint8]}
+		case 1:
+			ek := scalarKinds[r.Intn(len(scalarKinds))]
+			elem = &Shape{Kind: ek, T: g.leafT(ek)}
+		default:
+			elem, _ = g.gen(g.o.MaxDepth-1, false, false)
+		}
+		if elem.Kind == Uint8 && elem.T == goTypes[Uint8] {
+			elem = &Shape{Kind: Uint8, T: namedTypes[Uint8]}
+		}
+		n := r.Intn(5)
+		if n == 1 {
+			switch elem.Kind {
+			case Ptr, BigInt, Map, Struct, Array, Iface:
+				n = 2 // see gen: non-addressable [1]pointer-shaped arrays hit a reflect.Copy quirk of go1.23
+			}
+		}
+		arr = &Shape{Kind: Array, Elem: elem, N: n, T: reflect.ArrayOf(n, elem.T)}
+		s = arr
 	}
 	g.seen[s.T] = true
+	if arr != nil {
+		top := &TopSettings{}
+		if e, ok := g.u.reg[arr.T]; ok {
+			arr.LP, arr.R = e.lp, e.r
+		}
+		if arr.LP == 0 || r.Intn(2) == 0 {
+			top.LP = g.lp()
+			arr.LP = top.LP
+		}
+		if x == 11 {
+			s = &Shape{Kind: Ptr, Elem: arr, T: reflect.PointerTo(arr.T)}
+		}
+		s.Top = top
+		return s
+	}
 	top := &TopSettings{}
 	e, ok := g.u.reg[s.T]
 	if ok {
@@ -340,10 +455,17 @@ func (g *dynGen) gen(depth int, inField bool, keyPos bool) (*Shape, string) {
 			continue
 		}
 		switch k {
-		case Bool, Int8, Int16, Int32, Int64, Uint8, Uint16, Uint32, Uint64, Float32, Float64, BigInt, Time:
+		case Bool, Int8, Int16, Int32, Int64, Uint8, Uint16, Uint32, Uint64, Float32, Float64:
+			return &Shape{Kind: k, T: g.leafT(k)}, ""
+		case BigInt:
+			return &Shape{Kind: k, T: goTypes[k]}, ""
+		case Time:
+			if r.Intn(4) == 0 {
+				return ptrTime(), "" // the specially treated struct type behind a pointer
+			}
 			return &Shape{Kind: k, T: goTypes[k]}, ""
 		case String, Bytes:
-			s := &Shape{Kind: k, T: goTypes[k]}
+			s := &Shape{Kind: k, T: g.leafT(k)}
 			tag := g.settle(s, inField, false)
 			if s.LP == 0 {
 				continue
@@ -355,6 +477,9 @@ func (g *dynGen) gen(depth int, inField bool, keyPos bool) (*Shape, string) {
 				n = 3
 			}
 			t := reflect.ArrayOf(n, goTypes[Uint8])
+			if nt, ok := namedByteArrays[n]; ok && r.Intn(3) == 0 {
+				t = nt // defined type over [N]byte: still a byte array
+			}
 			s := &Shape{Kind: ByteArray, T: t, N: n}
 			first := !g.seen[t]
 			g.seen[t] = true
@@ -367,18 +492,36 @@ func (g *dynGen) gen(depth int, inField bool, keyPos bool) (*Shape, string) {
 			}
 			return s, ""
 		case Slice, Array:
+			if r.Intn(7) == 0 {
+				// a defined collection type over defined element types
+				if s := g.namedColl(k, keyPos); s != nil {
+					tag := g.settle(s, inField, true)
+					if s.LP == 0 {
+						continue
+					}
+					return s, tag
+				}
+			}
 			var elem *Shape
 			if keyPos {
-				elem = &Shape{Kind: Uint16, T: goTypes[Uint16]}
-				if r.Intn(2) == 0 {
-					elem = &Shape{Kind: Bool, T: goTypes[Bool]}
+				// comparable element types; a defined one-byte number makes an array of objects, not a byte array
+				ek := []Kind{Uint16, Bool, Uint8, Uint8, Int16, Uint32}[r.Intn(6)]
+				et := goTypes[ek]
+				if ek == Uint8 || r.Intn(3) == 0 {
+					et = namedTypes[ek]
 				}
-			} else if r.Intn(6) == 0 && k == Slice && !g.noIface {
+				elem = &Shape{Kind: ek, T: et}
+			} else if r.Intn(4) == 0 && k == Slice && !g.noIface {
 				elem = g.iface()
+			} else if r.Intn(8) == 0 {
+				ek := []Kind{Uint8, Uint8, Bool, Int8, Uint16, Int64}[r.Intn(6)]
+				elem = &Shape{Kind: ek, T: namedTypes[ek]}
+			} else if r.Intn(12) == 0 {
+				elem = ptrTime()
 			} else {
 				elem, _ = g.gen(depth+1, false, false)
 			}
-			if elem.Kind == Uint8 { // that would be a byte slice / byte array
+			if elem.Kind == Uint8 && elem.T == goTypes[Uint8] { // that would be a byte slice / byte array
 				continue
 			}
 			s := &Shape{Kind: k, Elem: elem}
@@ -403,9 +546,18 @@ func (g *dynGen) gen(depth int, inField bool, keyPos bool) (*Shape, string) {
 			}
 			return s, tag
 		case Map:
-			key, _ := g.gen(depth+1, false, true)
-			elem, _ := g.gen(depth+1, false, false)
-			s := &Shape{Kind: Map, Key: key, Elem: elem, T: reflect.MapOf(key.T, elem.T)}
+			var s *Shape
+			if r.Intn(8) == 0 {
+				s = g.namedColl(Map, false)
+			}
+			if s == nil {
+				key, _ := g.gen(depth+1, false, true)
+				elem, _ := g.gen(depth+1, false, false)
+				if r.Intn(12) == 0 {
+					elem = ptrTime()
+				}
+				s = &Shape{Kind: Map, Key: key, Elem: elem, T: reflect.MapOf(key.T, elem.T)}
+			}
 			tag := g.settle(s, inField, false)
 			if s.LP == 0 {
 				continue
@@ -425,10 +577,18 @@ func (g *dynGen) gen(depth int, inField bool, keyPos bool) (*Shape, string) {
 			return g.genStruct(depth+1, true, code), ""
 		case Ptr:
 			var el *Shape
-			if r.Intn(4) == 0 && !g.o.NoNonByteArrays {
+			sub := r.Intn(8)
+			if sub == 2 {
+				return ptrTime(), ""
+			}
+			if sub < 2 && !g.o.NoNonByteArrays {
 				// pointer to an array
+				want := []Kind{Array, ByteArray}[r.Intn(2)]
+				if depth+1 >= g.o.MaxDepth {
+					want = ByteArray // no composite keys at the depth limit
+				}
 				el, _ = g.gen(depth+1, false, true)
-				for el.Kind != Array && el.Kind != ByteArray {
+				for el.Kind != want {
 					el, _ = g.gen(depth+1, false, true)
 				}
 				s := &Shape{Kind: Ptr, Elem: el, T: reflect.PointerTo(el.T)}
@@ -523,7 +683,7 @@ func (g *dynGen) settle(s *Shape, inField bool, sliceRules bool) string {
 				if r.Intn(2) == 0 {
 					e.r.OneOfEach = s.Elem.CodeW
 				}
-				if impls := *s.Elem.Impls; r.Intn(3) == 0 && len(impls) > 0 {
+				if impls := *s.Elem.Impls; r.Intn(2) == 0 && len(impls) > 0 {
 					e.r.MustOccur = []uint32{ImplCode(impls[r.Intn(len(impls))])}
 				}
 			}
@@ -617,10 +777,22 @@ func (g *dynGen) genStruct(depth int, allowIface bool, code *Code) *Shape {
 		case x == 2 && !g.o.NoNonByteArrays:
 			// optional pointer to array
 			var el *Shape
-			for el == nil || (el.Kind != Array && el.Kind != ByteArray) {
+			want := []Kind{Array, ByteArray}[r.Intn(2)]
+			if depth+1 >= g.o.MaxDepth {
+				want = ByteArray
+			}
+			for el == nil || el.Kind != want {
 				el, _ = g.gen(depth+1, false, true)
 			}
 			f.S = &Shape{Kind: Ptr, Elem: el, T: reflect.PointerTo(el.T)}
+			f.Optional = true
+		case x == 3:
+			// optional pointer to a specially treated type: *time.Time (marker + 8 bytes) or *big.Int (marker + 32 bytes)
+			if r.Intn(3) == 0 {
+				f.S = &Shape{Kind: BigInt, T: bigIntType}
+			} else {
+				f.S = ptrTime()
+			}
 			f.Optional = true
 		default:
 			for {
